@@ -7,6 +7,7 @@ pub mod c06;
 pub mod c07;
 pub mod c08;
 pub mod c09;
+pub mod c10;
 pub mod c11;
 pub mod c13;
 pub mod c16;
@@ -28,6 +29,7 @@ pub fn run(id: &str, tier: Tier) -> Option<Report> {
         "C07" => c07::run(tier),
         "C08" => c08::run(tier),
         "C09" => c09::run(tier),
+        "C10" => c10::run(tier),
         "C11" => c11::run_check(tier),
         "C13" => c13::run(tier),
         "C16" => c16::run(tier),
